@@ -109,7 +109,7 @@ Init ==
 
 Fixed == UNCHANGED <<rdef, minOn, minOff>>
 
-\* priority 6 is reserved for the minimum on/off algorithm (clause 19.2.3): with a minimum time configured the
+\* priority 6 is reserved for the minimum on/off algorithm (BACnet clause 19.2): with a minimum time configured the
 \* environment does not command it
 UserMayCommand(p) == EffP(p) \in 1..16 /\ ~(HasMinOnOff /\ EffP(p) = 6)
 
